@@ -72,8 +72,12 @@ fn gen_authors(t: &mut Tape, ctx: &mut Ctx) -> Vec<String> {
 }
 
 fn gen_time(t: &mut Tape) -> chrono::DateTime<Local> {
-    let secs = 1_600_000_000i64 + t.u32() as i64 % 100_000_000;
+    let mut secs = 1_600_000_000i64 + t.u32() as i64 % 100_000_000;
     let nanos = if t.coin() { t.u32() % 1_000_000_000 } else { 0 };
+    // times before the epoch are times too (negative second counts, with and without a sub-second part)
+    if t.p(48) {
+        secs = -(t.u32() as i64 % 2_000_000_000) - 1;
+    }
     Local.timestamp_opt(secs, nanos).single().unwrap_or_else(|| Local.timestamp_opt(1_700_000_000, 0).unwrap())
 }
 
